@@ -435,6 +435,30 @@ pub fn run(ctx: &Ctx, st: &mut Stats, id: &str) {
             st.sample(|| json!(c));
         }
     }
+    if id == "C04" {
+        // zenith scan: where the Sun culminates in the zenith the Asr formula has a kink (|lat - dec|, tan 0); the
+        // library's own declination is within ~0.004 deg of the reference one, so a scan of +-0.012 deg in steps of
+        // 1e-6 deg around the reference declination passes over lat = dec of the library, whatever it is exactly
+        let nd = ctx.quota(32, 1_600);
+        let mut rz = Rng::new(ctx.seed, stream + 80, ctx.shard);
+        for _ in 0..nd {
+            let mut c = gen_case(&mut rz, id);
+            c.weather = None;
+            c.dangle = None;
+            c.p = PSpec::new(*rz.pick(&ANGLE_METHODS));
+            c.p.hanafi = Some(rz.chance(0.7));
+            let date = s2d(&c.date);
+            c.site.gmt = X((c.site.lon.0 / 15.0).round().clamp(-12.0, 12.0));
+            let dd = o::date_dec(date, c.site.gmt.0);
+            let step = 1e-6;
+            for k in -12_000i32..=12_000 {
+                c.site.lat = X(dd + k as f64 * step);
+                check(ctx, st, &c, id);
+            }
+            st.count("zenith_scans(24001 latitudes, 1e-6 deg apart, around lat = dec)");
+            st.nontrivial_key(hash64(&format!("z{:?}", c)));
+        }
+    }
     if id == "C03" {
         // existence-boundary seeking: bisect the latitude (down to adjacent f64 values) between a site where the
         // twilight exists and one where it does not; the last site where it exists must still satisfy the property
